@@ -41,6 +41,7 @@ var entities = []entityDef{
 	{"Crate", false, []keyDef{{"FindCrateBySkuAndRegion", [][]string{{"sku"}, {"region"}}}, {"FindCrateByUpc", [][]string{{"upc"}}}}},
 	{"Nested", false, []keyDef{{"FindNestedByOwnerIDAndCode", [][]string{{"owner", "id"}, {"code"}}}}},
 	{"Planet", false, []keyDef{{"FindPlanetByName", [][]string{{"name"}}}}},
+	{"Shipment", false, []keyDef{{"FindShipmentByID", [][]string{{"id"}}}}},
 	{"MUser", true, []keyDef{{"FindManyMUserByIDs", [][]string{{"id"}}}}},
 	{"MItem", true, []keyDef{{"FindManyMItemBySkus", [][]string{{"sku"}}}, {"FindManyMItemByUpcs", [][]string{{"upc"}}}}},
 }
@@ -68,7 +69,7 @@ type Case struct {
 	DelaysUS map[string]int    `json:"delays_us,omitempty"`
 }
 
-const query = `query($r: [_Any!]!) { _entities(representations: $r) { __typename ... on User { marker } ... on Item { marker } ... on Pair { marker } ... on Crate { marker } ... on Nested { marker } ... on Planet { marker diameter } ... on MUser { marker } ... on MItem { marker } } }`
+const query = `query($r: [_Any!]!) { _entities(representations: $r) { __typename ... on User { marker } ... on Item { marker } ... on Pair { marker } ... on Crate { marker } ... on Nested { marker } ... on Planet { marker diameter } ... on Shipment { marker crate { box { dims { width height } } } } ... on MUser { marker } ... on MItem { marker } } }`
 
 // state the entity resolvers consult
 type state struct {
@@ -115,10 +116,26 @@ func newEntity(t reflect.Type, marker string) reflect.Value {
 			f.SetString(m)
 		}
 	}
+	allocNested(p.Elem(), 0)
 	if t.Kind() == reflect.Ptr {
 		return p
 	}
 	return p.Elem()
+}
+
+// allocNested gives every pointer-to-struct field a value (the generated code assigns @requires
+// fields into the entity the resolver returned: entity.Crate.Box.Dims.Width = ...).
+func allocNested(v reflect.Value, depth int) {
+	if depth > 4 || v.Kind() != reflect.Struct {
+		return
+	}
+	for i := 0; i < v.NumField(); i++ {
+		f := v.Field(i)
+		if f.Kind() == reflect.Ptr && f.Type().Elem().Kind() == reflect.Struct && f.CanSet() && f.Type().Elem() != v.Type() {
+			f.Set(reflect.New(f.Type().Elem()))
+			allocNested(f.Elem(), depth+1)
+		}
+	}
 }
 
 var errType = reflect.TypeOf((*error)(nil)).Elem()
@@ -224,6 +241,7 @@ type expected struct {
 	group   string // multi: batch group
 	typ     string
 	diam    *int64
+	dims    *[2]int64 // width, height of a Shipment's nested @requires
 }
 
 func lookupPath(m map[string]any, path []string) (any, bool) {
@@ -366,6 +384,19 @@ func model(c Case) ([]expected, bool) {
 		}
 		desc := keyDesc(chosen.resolver, coerced)
 		e := expected{marker: desc, typ: ent.name}
+		if ent.name == "Shipment" {
+			if w, ok := lookupPath(rep, []string{"crate", "box", "dims", "width"}); ok {
+				if h, ok2 := lookupPath(rep, []string{"crate", "box", "dims", "height"}); ok2 {
+					wn, _ := w.(json.Number)
+					hn, _ := h.(json.Number)
+					wi, e1 := wn.Int64()
+					hi, e2 := hn.Int64()
+					if e1 == nil && e2 == nil {
+						e.dims = &[2]int64{wi, hi}
+					}
+				}
+			}
+		}
 		if ent.name == "Planet" {
 			if dv, ok := rep["diameter"].(json.Number); ok {
 				n, err := dv.Int64()
@@ -502,6 +533,24 @@ func check(c Case) *vfrun.Failure {
 				}
 				return vfrun.Failf(key, "%s: element %d is %s, but representation %d (%s) resolves to %s", desc, i, el.Canon(), i, c.Reps[i], ex.marker)
 			}
+			if ex.dims != nil {
+				var got [2]string
+				if c := el.Get("crate"); c != nil && c.Kind == strictjson.Object {
+					if b := c.Get("box"); b != nil && b.Kind == strictjson.Object {
+						if d := b.Get("dims"); d != nil && d.Kind == strictjson.Object {
+							if w := d.Get("width"); w != nil {
+								got[0] = w.Canon()
+							}
+							if h := d.Get("height"); h != nil {
+								got[1] = h.Canon()
+							}
+						}
+					}
+				}
+				if got[0] != fmt.Sprint(ex.dims[0]) || got[1] != fmt.Sprint(ex.dims[1]) {
+					return vfrun.Failf("entities.requires-from-other-representation", "%s: element %d has dims width=%s height=%s, its representation says %d x %d", desc, i, got[0], got[1], ex.dims[0], ex.dims[1])
+				}
+			}
 			if ex.diam != nil {
 				d := el.Get("diameter")
 				if d == nil || d.Kind != strictjson.Number || d.Num != fmt.Sprint(*ex.diam) {
@@ -564,6 +613,8 @@ func genRep(t *rapid.T) string {
 		return fmt.Sprintf(`{"__typename":"Nested","owner":{"id":%q},"code":%q}`, str("oid"), str("code"))
 	case 4:
 		return fmt.Sprintf(`{"__typename":"Planet","name":%q,"diameter":%d}`, str("name"), rapid.IntRange(1, 9).Draw(t, "diam"))
+	case 12:
+		return fmt.Sprintf(`{"__typename":"Shipment","id":%q,"crate":{"box":{"dims":{"width":%d,"height":%d}}}}`, str("shipid"), rapid.IntRange(1, 40).Draw(t, "width"), rapid.IntRange(41, 90).Draw(t, "height"))
 	case 5, 6:
 		return fmt.Sprintf(`{"__typename":"MUser","id":%q}`, str("mid"))
 	case 7, 8:
@@ -585,7 +636,7 @@ func genRep(t *rapid.T) string {
 		// partial composite keys, later keys that are null, several complete keys at once
 		var single []entityDef
 		for _, e := range entities {
-			if !e.multi && e.name != "Planet" && e.name != "Nested" {
+			if !e.multi && e.name != "Planet" && e.name != "Nested" && e.name != "Shipment" {
 				single = append(single, e)
 			}
 		}
